@@ -254,16 +254,21 @@ def sod_replay(chk, scalar):
             cl, cr = mp.sqrt(g * pl / rl), mp.sqrt(g * pr / rr)
             f = lambda p: -2 * cl * (1 - (p / pl) ** ((g - 1) / (2 * g))) / (cr * (g - 1)) + (p / pr - 1) * mp.sqrt((1 - mu2) / (g * (mu2 + p / pr)))
             pm = mp.findroot(f, mp.mpf('0.3'))
+            exact.vm = 2 * cl / (g - 1) * (1 - (pm / pl) ** ((g - 1) / (2 * g)))
             return (rl * pm / pl) ** (1 / g), pm
         r14, pm14 = exact(mp.mpf('1.4'))
         r53, pm53 = exact(mp.mpf(5) / 3)
+        vm53 = exact.vm
         src = ('#include <masa.h>\n#include <cstdio>\nusing namespace MASA;\ntypedef %s Scalar;\nint main(){ masa_init<Scalar>("h","sod_1d");\n'
                ' printf("\\nR rho %%.25Lg\\n",(long double)masa_eval_source_rho<Scalar>((Scalar)0.0,(Scalar)1.0));\n'
                ' masa_init<Scalar>("g","sod_1d"); masa_set_param<Scalar>("Gamma",(Scalar)5/(Scalar)3); { volatile Scalar w_ = masa_eval_source_rho<Scalar>((Scalar)0.0,(Scalar)1.0); (void)w_; }\n'
-               ' masa_set_param<Scalar>("mu",(Scalar)0.25); printf("R rho53 %%.25Lg\\n",(long double)masa_eval_source_rho<Scalar>((Scalar)0.0,(Scalar)1.0)); return 0;}\n') % cxx
+               ' masa_set_param<Scalar>("mu",(Scalar)0.25); printf("R rho53 %%.25Lg\\n",(long double)masa_eval_source_rho<Scalar>((Scalar)0.0,(Scalar)1.0));\n'
+               ' masa_init<Scalar>("k","sod_1d"); masa_set_param<Scalar>("Gamma",(Scalar)5/(Scalar)3); masa_set_param<Scalar>("mu",(Scalar)0.25);\n'
+               ' printf("R mom53 %%.25Lg\\n",(long double)masa_eval_source_rho_u<Scalar>((Scalar)0.0,(Scalar)1.0)); return 0;}\n') % cxx
         rc, out, err = chk.lib().run(src)
         res = rp.parse_results(out)
         got, got53 = res.get('rho'), res.get('rho53')
+        gotm = res.get('mom53')
         if got is None or abs(got - r14) > mp.mpf('1e-9'):
             path = chk.save_replay(ob, dict(obligation=ob.name, library=str(got), reference=str(r14), p_m=str(pm14), stdout=out[-500:]), src)
             return dict(reproduced=True, path=path, detail='sod_1d<%s>: density between fan and contact at (x=0,t=1) is %s, exact %s (p_m=%s): the bisection stopped before converging' % (
@@ -272,6 +277,10 @@ def sod_replay(chk, scalar):
             path = chk.save_replay(ob, dict(obligation=ob.name, library=str(got53), reference=str(r53), scenario='Gamma:=5/3; evaluate; mu:=1/4; evaluate', stdout=out[-500:]), src)
             return dict(reproduced=True, path=path, detail='sod_1d<%s>: after Gamma:=5/3, one evaluation, mu:=1/4 the density at (0,1) is %s, exact solution for the current parameters %s' % (
                 scalar, mp.nstr(got53, 15), mp.nstr(r53, 15)))
+        if gotm is None or abs(gotm - r53 * vm53) > mp.mpf('1e-9'):
+            path = chk.save_replay(ob, dict(obligation=ob.name, library=str(gotm), reference=str(r53 * vm53), scenario='fresh handle; Gamma:=5/3; mu:=1/4; momentum evaluated FIRST', stdout=out[-500:]), src)
+            return dict(reproduced=True, path=path, detail='sod_1d<%s>: on a fresh handle with Gamma:=5/3, mu:=1/4 the momentum at (0,1), evaluated before any density, is %s; exact solution for the current parameters %s' % (
+                scalar, mp.nstr(gotm, 15) if gotm is not None else None, mp.nstr(r53 * vm53, 15)))
         # (3) the whole wave structure at the default Gamma: both evaluators against the exact Riemann solution on a grid of x/t
         #     (every region, both sides of every front; points closer than 2e-3 to a front are skipped)
         g = mp.mpf('1.4')
@@ -338,7 +347,7 @@ def sod_relations(chk, w0, scalar, gammas):
     PM = tm.sym('p_m')
     ex.opaque[rt] = lambda e, args, inst: PM
     try:
-        v = pde.SolView(chk, w, 'sod_1d', scalar, cache_prefix=None)
+        v = pde.SolView(chk, w, 'sod_1d', scalar, cache_prefix='cache')      # members the evaluators do not (re)compute are arbitrary remembered values
         G, MU = v.P['Gamma'], v.P['mu']
         fq_rho = w.method(v.sol, 'eval_q_rho', 2)
         fq_ru = w.method(v.sol, 'eval_q_rho_u', 2)
@@ -419,11 +428,15 @@ def sod_relations(chk, w0, scalar, gammas):
                         shape_ok = False
                         continue
                     rhs = cc.a[0] if cc.a[1] is X else cc.a[1]
-                    val = tm.evalf([rhs], env, mp)[0]
+                    try:
+                        val = tm.evalf([rhs], env, mp)[0]
+                    except KeyError:
+                        shape_ok = False        # the front position depends on a value remembered from an earlier call
+                        continue
                     k = min(range(4), key=lambda q: abs(fvals[q] - val))
                     kof[c] = (k, cc.a[1] is X, c.op == 'not')          # (front index, 'front < x' orientation, negated)
                     chk.identity('%s:%s:path%d:front%d-speed' % (tag, what, pi_, k), rhs, fronts[k] * TT, A, key='sod:%s:front%d' % (what, k), family=fam, witnesses=False, replay=rp_)
-                chk.paths_clean('%s:%s:path%d:conditions-compare-x-with-a-front' % (tag, what, pi_), [] if shape_ok else [tm.TRUE], key='sod:%s:shape' % what, family=fam)
+                chk.paths_clean('%s:%s:path%d:conditions-compare-x-with-a-front-computed-from-the-current-parameters' % (tag, what, pi_), [] if shape_ok else [tm.TRUE], key='sod:%s:shape' % what, family=fam, replay=rp_)
                 if not shape_ok:
                     continue
                 pcl = dict((S_(c), b) for c, b in p['pc'])
